@@ -26,11 +26,19 @@ def _debug_payload(ctx, little):
     return h + body, ab, v, name
 
 
-def _image(ctx, cls, little, container, info, abbrev, extra=None, declared=None, magic=None, comp_name='c'):
-    """image with .debug_info in the given container (plain | gabi | zdebug); other sections plain"""
-    img = Image(cls, little, e_type=1)
+def _image(ctx, cls, little, container, info, abbrev, extra=None, declared=None, magic=None, comp_name='c', mips=False):
+    """image with .debug_info in the given container (plain | gabi | zdebug); other sections plain.
+    mips: a MIPS object, whose debug sections have the type SHT_MIPS_DWARF instead of SHT_PROGBITS"""
+    img = Image(cls, little, e_type=1, machine=8 if mips else 62)
     img.section('', sh_type=0)
     pairs = []
+    _section = img.section
+    if mips:
+        def typed(name, **kw):
+            if name.startswith(('.debug_', '.zdebug_')):
+                kw['sh_type'] = 0x7000001e
+            return _section(name, **kw)
+        img.section = typed
     if container == 'plain':
         off = img.blob(info)
         img.section('.debug_info', sh_type=1, sh_offset=off, sh_size=len(info))
@@ -76,7 +84,7 @@ def h_containers(ctx):
     cls, little, container = cfg['elfclass'], cfg['little'], cfg['container']
     EF = ctx.lib('elf.elffile')
     info, ab, v, name = _debug_payload(ctx, little)
-    data, pairs = _image(ctx, cls, little, container, info, ab)
+    data, pairs = _image(ctx, cls, little, container, info, ab, mips=cfg.get('mips', False))
     ctx.use_zlib_model(pairs)
     elf = EF.ELFFile(ctx.stream(data))
     ctx.check('containers/%s/has_dwarf_info' % container, bool(elf.has_dwarf_info()))
@@ -304,7 +312,8 @@ TIER_PARAMS = {'quick': {'conc_cap': 300}, 'thorough': {'conc_cap': 600}}
 ENVS = [(64, True), (32, False), (64, False), (32, True)]
 
 HARNESSES = [
-    H('h11_1_containers', h_containers, lambda tier: [dict(elfclass=c, little=l, container=k) for c, l in (ENVS if tier == 'thorough' else ENVS[:2]) for k in ('plain', 'gabi', 'zdebug')],
+    H('h11_1_containers', h_containers, lambda tier: [dict(elfclass=c, little=l, container=k) for c, l in (ENVS if tier == 'thorough' else ENVS[:2]) for k in ('plain', 'gabi', 'zdebug')] +
+                   [dict(elfclass=c, little=l, container=k, mips=True) for c, l in ENVS[1:3] for k in ('plain', 'gabi', 'zdebug')],
       expect=('ok',),
       desc='the same symbolic debug payload stored plainly, SHF_COMPRESSED (Elf32/64_Chdr) and as legacy .zdebug ("ZLIB" + 8-byte big-endian size): the stream handed to DWARFInfo has '
            'content P and size |P| in all three, and the unit / entry / attribute decoded from it are identical'),
